@@ -736,7 +736,8 @@ def node_spec():
 
 def weight_for(weighted):
     if weighted:
-        return st.one_of(st.none(), st.integers(1, 9), st.sampled_from([0.5, 2.5]))
+        # 0 is a weight too (a falsy value must not be mistaken for "no weight given")
+        return st.one_of(st.none(), st.integers(1, 9), st.sampled_from([0.5, 2.5, 0]))
     # 1/None accepted; anything else is an intended rejection
     return st.sampled_from([None, None, None, 1, 1, 3])
 
@@ -783,7 +784,8 @@ def op_strategy(draw, weighted, kinds, t_strategy=None, clear=True):
                   keep=draw(st.booleans()))
     elif k == "set_weight":
         op.update(edge=draw(e_exist),
-                  w=draw(st.integers(1, 9) if weighted else st.sampled_from([1, 1, 1, 4])))
+                  w=draw(st.sampled_from([1, 2, 3, 5, 8, 9, 0, 0.5]) if weighted
+                         else st.sampled_from([1, 1, 1, 4, 0])))
     elif k == "set_node_metadata":
         op.update(node=draw(node_spec()), meta=draw(S.metadata()))
     elif k == "set_edge_metadata":
